@@ -141,10 +141,11 @@ fn check(case: &Case, knobs: &Knobs, strat: &Strategy, nobin: &RunOut) -> Option
             return Some((format!("quit-mode-not-a-prefix:{kind}"), format!("results in quit mode are not a prefix of the detection-free results: [{}] vs [{}]", brief(&out.evs), brief(&nobin.evs))));
         }
         // a reader examines every byte: if the input has a NUL and nobody stopped the search, it must be noticed
-        if matches!(strat, Strategy::Reader(_)) && case.data.contains(&0) && binary_evs.is_empty() {
+        // (line strategy only: in multi-line mode a reader is read to the end first and then treated as a slice)
+        if !ml && matches!(strat, Strategy::Reader(_)) && case.data.contains(&0) && binary_evs.is_empty() {
             return Some((format!("nul-not-noticed:{kind}"), "the reader strategy read a NUL byte but never signalled binary data".into()));
         }
-        if matches!(strat, Strategy::Reader(_)) && !binary_evs.is_empty() {
+        if !ml && matches!(strat, Strategy::Reader(_)) && !binary_evs.is_empty() {
             let z = case.data.iter().position(|&b| b == 0).unwrap() as u64;
             if binary_evs[0] != z {
                 return Some((format!("binary-offset-not-first:{kind}"), format!("reader strategy reports offset {} but the first NUL is at {z}", binary_evs[0])));
